@@ -42,6 +42,16 @@ type LoopSpec struct {
 	Decreases  []*Clause
 }
 
+// Macro: a named heap-dependent predicate/term expanded at evaluation time:  //@ define name(a, b) = expr
+type Macro struct {
+	Name    string
+	Params  []string
+	Body    *Clause
+	PkgPath string
+}
+
+var macroRe = regexp.MustCompile(`^define\s+([A-Za-z_][A-Za-z0-9_]*)\s*\(([^)]*)\)\s*=\s*(.*)$`)
+
 type Contract struct {
 	Key        string
 	PkgName    string
@@ -54,6 +64,7 @@ type Contract struct {
 	Lets       []*Clause // Label = name
 	Loops      map[int]*LoopSpec
 	Trusted    bool
+	NoAlloc    bool // nothing allocated by a call is reachable afterwards: the allocation counter is unchanged for the caller
 	Inline     bool
 	Where      string
 	ResultNames []string
@@ -86,10 +97,13 @@ func clauseTexts(cs []*Clause) string {
 	return strings.Join(ts, ", ")
 }
 
-var clauseRe = regexp.MustCompile(`^(requires|ensures|invariant|modifies|decreases|let|loop|split|trusted|inline|pure|use|results)\b(\[[^\]]*\])?\s*(.*)$`)
+var clauseRe = regexp.MustCompile(`^(requires|ensures|invariant|modifies|decreases|let|loop|split|trusted|inline|pure|noalloc|use|results)\b(\[[^\]]*\])?\s*(.*)$`)
 
 // parseContractFile reads //@ blocks from a file. pkgName qualifies unqualified keys.
+var macros = map[string]*Macro{} // key: pkgPath + "." + name
+
 func parseContractFile(path, pkgName, pkgPath string) ([]*Contract, error) {
+	var pendingMacro *Macro
 	data, err := os.ReadFile(path)
 	if err != nil {
 		return nil, err
@@ -101,6 +115,9 @@ func parseContractFile(path, pkgName, pkgPath string) ([]*Contract, error) {
 	lines := strings.Split(string(data), "\n")
 	for ln, raw := range lines {
 		t := strings.TrimSpace(raw)
+		if strings.HasPrefix(t, "// @") { // gofmt rewrites //@ in doc comments
+			t = "//@" + t[4:]
+		}
 		if !strings.HasPrefix(t, "//@") {
 			if cur != nil && t != "" && !strings.HasPrefix(t, "//") {
 				cur = nil
@@ -110,14 +127,34 @@ func parseContractFile(path, pkgName, pkgPath string) ([]*Contract, error) {
 		}
 		body := strings.TrimSpace(t[3:])
 		where := fmt.Sprintf("%s:%d", filepath.Base(path), ln+1)
+		if m := macroRe.FindStringSubmatch(body); m != nil {
+			mc := &Macro{Name: m[1], PkgPath: pkgPath, Body: &Clause{Text: m[3], Where: where}}
+			for _, p := range strings.Split(m[2], ",") {
+				if p = strings.TrimSpace(p); p != "" {
+					mc.Params = append(mc.Params, p)
+				}
+			}
+			macros[pkgPath+"."+mc.Name] = mc
+			pendingMacro = mc
+			cur = nil
+			last = mc.Body
+			continue
+		}
 		if strings.HasPrefix(body, "contract ") {
+			pendingMacro = nil
 			key := strings.TrimSpace(body[len("contract "):])
 			cur = &Contract{Key: qualifyKey(key, pkgName), PkgName: pkgName, PkgPath: pkgPath, Loops: map[int]*LoopSpec{}, Where: where}
 			out = append(out, cur)
 			last = nil
 			continue
 		}
-		if cur == nil || body == "" {
+		if body == "" {
+			continue
+		}
+		if cur == nil {
+			if pendingMacro != nil && last != nil && clauseRe.FindStringSubmatch(body) == nil {
+				last.Text += " " + body
+			}
 			continue
 		}
 		m := clauseRe.FindStringSubmatch(body)
@@ -201,9 +238,19 @@ func parseContractFile(path, pkgName, pkgPath string) ([]*Contract, error) {
 			cur.Trusted = true
 		case "inline":
 			cur.Inline = true
+		case "noalloc":
+			cur.NoAlloc = true
 		case "pure":
 		}
 		_ = lastList
+	}
+	_ = pendingMacro
+	for _, mc := range macros {
+		if mc.Body.Expr == nil {
+			if err := mc.Body.parse(); err != nil {
+				return nil, fmt.Errorf("%s (define %s): %v", mc.Body.Where, mc.Name, err)
+			}
+		}
 	}
 	// parse expressions
 	for _, c := range out {
@@ -232,7 +279,7 @@ func splitCommaClauses(cs []*Clause) []*Clause {
 	var out []*Clause
 	for _, c := range cs {
 		parts := splitTop(c.Text, ",")
-		if len(parts) == 1 {
+		if len(parts) == 1 || c.Expr != nil {
 			out = append(out, c)
 			continue
 		}
@@ -248,18 +295,16 @@ func splitCommaClauses(cs []*Clause) []*Clause {
 }
 
 func (cl *Clause) parse() error {
-	if strings.Contains(cl.Text, ",") && cl.Expr == nil {
-		// may be a comma list (decreases/modifies): parsed after splitting
-		if parts := splitTop(cl.Text, ","); len(parts) > 1 {
-			return nil
-		}
-	}
 	src, err := preprocess(cl.Text)
 	if err != nil {
 		return err
 	}
 	e, err := parser.ParseExpr(src)
 	if err != nil {
+		// may be a comma list (decreases/modifies): parsed after splitting
+		if parts := splitTop(cl.Text, ","); len(parts) > 1 {
+			return nil
+		}
 		return fmt.Errorf("cannot parse %q (as %q): %v", cl.Text, src, err)
 	}
 	cl.Expr = e
@@ -369,19 +414,21 @@ func preprocess(s string) (string, error) {
 			decl := strings.TrimSpace(rest[:i])
 			body := strings.TrimSpace(rest[i+2:])
 			trig := ""
-			if strings.HasPrefix(body, "{") {
+			for strings.HasPrefix(body, "{") {
 				j := matchClose(body, 0)
 				if j < 0 {
 					return "", fmt.Errorf("unbalanced trigger in %q", s)
 				}
 				tparts := splitTop(body[1:j], ",")
+				var ps []string
 				for _, tp := range tparts {
 					pt, err := preprocess(tp)
 					if err != nil {
 						return "", err
 					}
-					trig += ", " + pt
+					ps = append(ps, pt)
 				}
+				trig += ", __pat(" + strings.Join(ps, ", ") + ")"
 				body = strings.TrimSpace(body[j+1:])
 			}
 			pb, err := preprocess(body)
